@@ -265,8 +265,9 @@ class FileSystem(object):
                         return re.compile(r'$X')
                 return expr
 
-        # Remove '../', etc.
-        path = os.path.normpath(path)
+        # Remove '../', etc. (a relative path starts from the sandbox root: it
+        # cannot climb above it either)
+        path = os.path.normpath(os.path.join(path_sep, path))
 
         # Passthrough
         for passthrough in self.passthrough:
